@@ -3,8 +3,8 @@
 (* tket circuits (C13).  A tket circuit is                                 *)
 (*   [nq, nb, cmds |-> <<[op, ph, qs, bs], ...>>, postsel |-> <<[b, v]>>,  *)
 (*    sc |-> [re, im, s], post |-> mixed circuit on bits (CQ.tla)]         *)
-(* op in {"H","X","Y","Z","S","T","Sdg","Tdg","CX","CZ","SWAP","Rx","Rz",  *)
-(* "CRz","Measure"}; ph: the rotation angle in eighths of a full turn (tket's    *)
+(* op in {"H","X","Y","Z","S","T","Sdg","Tdg","CX","CZ","CS","CSdg","CY",  *)
+(* "CH","SWAP","Rx","Rz","CRz","Measure"}; ph: the rotation angle in eighths of a full turn (tket's    *)
 (* half-turn parameter times 4); qs, bs: qubit / bit register indices.     *)
 (* TkSem: exact evolution from |0..0> and bits 0..0.  Mid-circuit           *)
 (* measurements split a branch [bits, vec] into two (pure unnormalised     *)
@@ -16,7 +16,9 @@ EXTENDS CQ
 TG(op, ph) == [k |-> op, ph |-> ph, bits |-> <<>>, dg |-> 0, sub |-> "", subdg |-> 0, re |-> 0, im |-> 0, s |-> 0]
 \* tket's adjoint gates Sdg, Tdg: the named gate with the dagger flag
 TkGate(op, ph) == IF op = "Sdg" THEN [TG("S", ph) EXCEPT !.dg = 1]
-                  ELSE IF op = "Tdg" THEN [TG("T", ph) EXCEPT !.dg = 1] ELSE TG(op, ph)
+                  ELSE IF op = "Tdg" THEN [TG("T", ph) EXCEPT !.dg = 1]
+                  ELSE IF op \in {"CS", "CY", "CH"} THEN [TG("Ctrl", ph) EXCEPT !.sub = IF op = "CS" THEN "S" ELSE IF op = "CY" THEN "Y" ELSE "H"]
+                  ELSE IF op = "CSdg" THEN [TG("Ctrl", ph) EXCEPT !.sub = "S", !.subdg = 1] ELSE TG(op, ph)
 Vec0(nq) == T(<<>>, Q(nq), LAMBDA r, cc : IF cc = 0 THEN ROne ELSE RZero)
 Apply1(v, nq, GG, q) == MatThen(v, Whisker(Q(q), GG, Q(nq - q - 1)))
 Apply2(v, nq, GG, a, b) == MatThen(v, RewireT(GG, a, b, nq))
